@@ -121,6 +121,9 @@ FRAME_READ_4200 = K("p_frame_read_matches_reference_4200",
                     "same contract on every byte string <= 4200 bytes: the 4096-byte parse limit is reachable with a complete frame",
                     [P + "frame.rs::Frame::read", P + "frame.rs::Frame::read_from_buffer"], tier="thorough")
 
+FRAME_ASYNC_LIMIT = K("p_frame_read_async_at_limit", "Frame::read_async with declared payload 4095/4096/4097 on a short always-ready source: 4096 is not too big (UnexpectedFin), 4097 is (PayloadTooBig)",
+                      [P + "frame.rs::Frame::read_async"], tier="thorough", kind="bounded", bound="three concrete declared lengths, five frame types")
+
 FRAME_WRITE_KANI = [
     K("p_frame_write_roundtrip_8", "all kinds/ids/session ids, payload <= 8, all capacities: write_size exact, write_to_buffer all-or-nothing == RFC bytes, read(write(f)) == f",
       [P + "frame.rs::Frame::{write,write_to_buffer,write_size,new_data,new_headers,new_settings,new_exercise,new_webtransport}"],
@@ -289,7 +292,7 @@ PROPS = {
         "claim": "Sans-IO typestate layer: on each of the four stream roles, from an arbitrary first-frame state, the accept/reject verdict and the error code for every frame kind equal the RFC 9114 7.2 / WebTransport-draft rule table; invalid session ids -> H3_ID_ERROR, oversize -> H3_EXCESSIVE_LOAD, unknown uni stream type -> H3_STREAM_CREATION_ERROR; the 15 error codes and the reserved/registered setting ids equal their registry values.",
         "note": "Quick tier: well-formed single frames (bounded). Thorough tier: every byte string <= 14 bytes. Not decided: the driver's reaction (RemoteSettingsStream::run, handle_uni_h3_stream, missing/duplicate SETTINGS, closed critical streams) - async over quinn.",
         "kani": STREAM_KANI_QUICK[:5] + STREAM_KANI_THOROUGH + MISC_KANI[:1] + SETTING_ID_KANI[1:3],
-        "verus": [V("frame", pair=("proto", "p_frame_read_matches_reference_20")), V("settings", pair=("proto", "c_settingid_parse"))],
+        "verus": [V("frame", pair=("proto", "p_frame_read_matches_reference_20")), V("settings", pair=("proto", "c_settingid_parse")), V("frame_async")],
         "not_decided": ["driver-level rules: missing/repeated SETTINGS, duplicated/closed critical streams, what is put on the wire"],
     },
     "C13": {
@@ -298,7 +301,7 @@ PROPS = {
         "note": "Skip loop: Kani shows base case + one step per typestate (thorough tier, bounded); quick tier exercises one leading unknown frame on well-formed input. Unknown frames above the 4096-byte parse limit are refused like known ones (H3_EXCESSIVE_LOAD). Not decided: driver reactions to unknown unidirectional stream types (async).",
         "kani": FRAME_KIND_KANI + [FRAME_READ_20, FRAME_READ_4200] + STREAM_KANI_QUICK[:4] + STREAM_KANI_THOROUGH[:4]
                 + [STREAM_KIND_KANI[0], SETTING_ID_KANI[0], SETTING_ID_KANI[2], CAPSULE_KANI[0], CAPSULE_KANI[1]],
-        "verus": [V("frame", pair=("proto", "p_frame_read_matches_reference_20")), V("settings", pair=("proto", "c_settingid_parse"))],
+        "verus": [V("frame", pair=("proto", "p_frame_read_matches_reference_20")), V("settings", pair=("proto", "c_settingid_parse")), V("frame_async")],
         "not_decided": ["unknown unidirectional stream types in the worker", "ConnectStream capsule loop"],
     },
     "C14": {
@@ -314,8 +317,8 @@ PROPS = {
         "level": "proof",
         "claim": "One-shot and buffered decoders of frames and stream headers agree with one reference on EVERY byte string (so they agree with each other), need-more-data exactly on proper prefixes, buffered offset unchanged unless a value is returned; the four async leaf futures satisfy one-step inductive poll contracts from ANY state - every chunking and every Pending pattern - incl. ImmediateFin iff nothing was taken and UnexpectedFin iff something was.",
         "note": "Unchecked assumption: async fn desugaring composes the awaits sequentially and keeps no state beyond the leaf futures', so chunking-independence lifts to Frame::read_async / StreamHeader::read_async / read_frame_async (the whole state machines do not scale in CBMC). GetBuffer/PutBuffer steps shown for lengths <= 8.",
-        "kani": [FRAME_READ_20, FRAME_READ_4200, STREAM_HEADER_KANI[0], VARINT_KANI[9]] + ASYNC_LEAF_KANI + STREAM_KANI_THOROUGH[4:],
-        "verus": [V("frame", pair=("proto", "p_frame_read_matches_reference_20"))],
+        "kani": [FRAME_READ_20, FRAME_READ_4200, STREAM_HEADER_KANI[0], VARINT_KANI[9], FRAME_ASYNC_LIMIT] + ASYNC_LEAF_KANI + STREAM_KANI_THOROUGH[4:],
+        "verus": [V("frame", pair=("proto", "p_frame_read_matches_reference_20")), V("frame_async")],
         "not_decided": ["async composites as whole state machines"],
     },
     "C16": {
